@@ -199,7 +199,8 @@ def m2m_table(spec, app, mname, fname, fdef):
 
 def m2m_columns(app, mname, to_app, to_model):
     """Column names Django gives the two FK columns of an auto M2M table."""
-    if (to_app, to_model) == (app, mname):
+    # Django compares the model *names* only (also across apps)
+    if to_model.lower() == mname.lower():
         return ('from_%s_id' % mname.lower(), 'to_%s_id' % mname.lower())
     return ('%s_id' % mname.lower(), '%s_id' % to_model.lower())
 
